@@ -28,6 +28,7 @@ type script struct {
 	Rule     string   `json:"rule"`
 	Muts     []string `json:"mutations,omitempty"`
 	Burst    bool     `json:"burst,omitempty"`    // deliver all peer bytes in one write
+	Prefixed bool     `json:"prefixed,omitempty"` // namespaces declared as prefixes on the stanza element
 	ReadAll  bool     `json:"read_all,omitempty"` // history consumer reads every token
 	Close    bool     `json:"closing_tag"`        // end with </stream:stream> (else bare EOF)
 	Steps    []step   `json:"steps"`
@@ -290,6 +291,7 @@ func genScript(r *rand.Rand, i int) *script {
 	sc.Close = r.Intn(3) > 0
 	sc.Burst = round > 0 && r.Intn(4) == 0
 	sc.ReadAll = raceBuild && r.Intn(3) == 0
+	sc.Prefixed = round > 0 && r.Intn(4) == 0
 
 	var pieces []piece
 	// state-building / unrelated canonical traffic first
@@ -336,6 +338,9 @@ func genScript(r *rand.Rand, i int) *script {
 		switch {
 		case p.n != nil:
 			raw := p.n.str()
+			if sc.Prefixed && k >= mainStart && k < mainEnd {
+				raw = p.n.strPrefixed()
+			}
 			if byteMut[k] {
 				other := ""
 				if len(stanzaIdx) > 0 {
@@ -648,6 +653,9 @@ func (e *env) report(sc *script) {
 		outcome = "nil"
 	default:
 		outcome = "error"
+	}
+	if sc.Prefixed {
+		c.Count("w1_prefixed_cases", 1)
 	}
 	if len(sc.Muts) > 0 {
 		c.Count("w1_mutated_cases", 1)
